@@ -25,6 +25,39 @@ pub fn soup(rng: &mut Rng, max_atoms: usize) -> String {
     s
 }
 
+/// Inputs that no soup produces: empty and blank files, files of comments only, identifiers / comments /
+/// attributes whose length sits on a power-of-two or decimal boundary, long runs of one punctuation character.
+pub fn special_texts() -> Vec<String> {
+    let mut v: Vec<String> = vec![
+        "".into(), " ".into(), "\n".into(), "\r\n".into(), "//".into(), "// c".into(), "// c\n".into(), "\u{feff}".into(), "\u{feff}start A".into(),
+        "\t\u{a0}\u{3000}".into(), ":::::".into(), "::::".into(), ":::".into(), "$$$".into(), "$$".into(), "###".into(), "#[[[]]]".into(), "#[]#[]".into(), "///".into(), "////".into(),
+        "_1_000".into(), "$_1_000".into(), "x_start".into(), "start_".into(), "$x_enum".into(), "$enum_".into(), "structenum".into(), "_terminal".into(), "terminal_".into(), "r#type".into(),
+        "_ _".into(), "__".into(), "$__".into(), "_0".into(), "$_0".into(), "a$b".into(), "$a$b".into(), "a#b".into(), "a/b".into(), "a//b".into(), "$a//b".into(), "::a//".into(),
+    ];
+    for n in [63usize, 64, 65, 127, 128, 129, 255, 256, 257, 1023, 1024, 1025, 4095, 4096, 4097] {
+        v.push(format!("I{}", "x".repeat(n - 1)));
+        v.push(format!("$T{}", "y".repeat(n - 2)));
+        v.push(format!("//{}\nA", "c".repeat(n - 2)));
+        v.push(format!("//{}", "é".repeat(n / 2)));
+        v.push(format!("#[{}]", "a".repeat(n - 3)));
+        v.push(format!("#[{}{}]", "(".repeat(n / 2), ")".repeat(n / 2)));
+        v.push(format!("#[{}{}", "(".repeat(n / 2), ")".repeat(n / 2 - 1)));
+        v.push(format!("{}A", " ".repeat(n)));
+        v.push(format!("{}$", "\n".repeat(n)));
+        v.push(format!("{}", ":".repeat(n)));
+        v.push(format!("start {}", "A ".repeat(n)));
+    }
+    v
+}
+
+/// A comment (plus newline) that moves everything behind it across a position threshold.
+pub fn position_padding(rng: &mut Rng) -> String {
+    let target = *rng.pick(&[250usize, 256, 260, 1000, 4090, 4096, 4100, 9995, 10005, 32760, 32770, 60000]);
+    let jitter = rng.below(6);
+    let body = if rng.chance(0.2) { "é".repeat((target + jitter) / 2) } else { "p".repeat(target + jitter) };
+    format!("//{body}\n")
+}
+
 /// All strings of exactly `n` atoms, by index.
 pub fn atom_string(mut index: u64, n: usize) -> String {
     let mut s = String::new();
@@ -474,7 +507,26 @@ pub fn inject_many(items: &mut Vec<RItem>, rng: &mut Rng) -> &'static str {
     let nt = |n: &str| RSym::N(rkiki::RIdent { name: n.to_string(), pos: 0 });
     let at = rng.below(items.len() + 1);
     let k = rng.range(2, 4);
-    match rng.below(9) {
+    match rng.below(10) {
+        9 => {
+            // NOT a violation: variants whose symbol sequences differ but spell the same text when written
+            // without separators (`KvP KvQ` / `KvPKvQ`, `KvP KvPKvQ` / `KvPKvP KvQ`), named and tuple
+            for n in ["KvP", "KvQ", "KvPKvQ", "KvPKvP"] {
+                let p = rng.below(items.len() + 1);
+                items.insert(p, RItem::Struct { attrs: vec![], name: id(n), fieldset: RFieldset::Empty });
+            }
+            let mut variants = vec![
+                (id("One"), tuple(vec![nt("KvP"), nt("KvQ")])),
+                (id("Two"), tuple(vec![nt("KvPKvQ")])),
+                (id("Three"), named(vec![("a", nt("KvP")), ("b", nt("KvPKvQ"))])),
+                (id("Four"), tuple(vec![nt("KvPKvP"), nt("KvQ")])),
+            ];
+            if rng.chance(0.5) {
+                rng.shuffle(&mut variants);
+            }
+            items.insert(at.min(items.len()), RItem::Enum { attrs: vec![], name: id("KvTwins"), variants });
+            "concatenation-twin-variants (no violation)"
+        }
         0 => {
             // k different variant names, each declared twice, interleaved
             let names = ["Lorem", "Ipsum", "Dolor", "Sit"];
@@ -556,7 +608,8 @@ pub fn inject_many(items: &mut Vec<RItem>, rng: &mut Rng) -> &'static str {
 
 /// Random items over a tiny name pool: every kind of violation in every combination.
 pub fn pool_file(rng: &mut Rng) -> String {
-    const NAMES: &[&str] = &["A", "B", "C", "Tok", "X", "a", "b", "x", "_q", "__", "A1", "tok", "T", "Y"];
+    // (with names that are concatenations of other names: `A` `B` `AB`, `A` `A1`, `X` `XX`)
+    const NAMES: &[&str] = &["A", "B", "C", "Tok", "X", "a", "b", "x", "_q", "__", "A1", "tok", "T", "Y", "AB", "BA", "AA", "XX", "A_", "_A"];
     const FIELD_NAMES: &[&str] = &["_", "a", "b", "Q", "x1", "_z", "_Z", "__"];
     let sym = |rng: &mut Rng| {
         let n = rng.pick(NAMES);
